@@ -16,6 +16,7 @@ const (
 	OpGet          = "k8s.get"
 	OpPut          = "k8s.put"
 	OpDelete       = "k8s.delete"
+	OpPatch        = "k8s.patch"
 	OpDescribeASG  = "asg.describe"
 	OpSetDesired   = "asg.set-desired"
 	OpTerminateASG = "asg.terminate"
@@ -51,7 +52,7 @@ const (
 
 func isMutating(op string) bool {
 	switch op {
-	case OpPut, OpDelete, OpSetDesired, OpTerminateASG, OpAttach, OpCreateFleet, OpTerminateEC2:
+	case OpPut, OpPatch, OpDelete, OpSetDesired, OpTerminateASG, OpAttach, OpCreateFleet, OpTerminateEC2:
 		return true
 	}
 	return false
@@ -127,7 +128,7 @@ func (c *Call) Line() string {
 		fmt.Fprintf(&b, " total=%d min=%d got=%d", c.FleetTotal, c.FleetMin, len(c.IDs))
 	case OpTerminateASG:
 		fmt.Fprintf(&b, " decrement=%v", c.Decrement)
-	case OpPut:
+	case OpPut, OpPatch:
 		if c.NodeBody != nil {
 			fmt.Fprintf(&b, " taints=%s", taintsString(c.NodeBody.Spec.Taints))
 		}
